@@ -14,6 +14,7 @@ TRUSTED = [
 ]
 
 NOT_DECIDED = {
+    "C18": "the detection probability (>= 0.99 over the random projections) and the freedom from false rejections at well-scaled points: statements about floating-point magnitudes (EPS, TOL, RTOL against the scale of f) and about the distribution of the random projections",
     "C01": "that the closed form of any rule equals the true derivative (numerical); tie/kink policy values",
     "C02": "numerical equality of custom JVP formulas with J v",
     "C03": "the counting invariant of toposort over unbounded DAG shapes; derivative values",
@@ -39,6 +40,7 @@ NOT_DECIDED = {
 def _analyses():
     from .analyses import a1_tables as a1
     from .analyses import a2_binding as a2
+    from .analyses import kernel_checker as kck
     from .analyses import a3_shape as a3
     from .analyses import a3_reduce
     from .analyses import a16_perm
@@ -143,6 +145,12 @@ def _analyses():
             [kc.dispatch, kc.raise_discipline, kc.zero_paths, kt.wrapper, ka.operators, a2.argnums_rules],
             "Extension contract: the three defvjp branches are specialisations of one mapping (A13.align), missing rules raise (A6.raise), None -> zeros of the right argument (A13.zero), "
             "registration slots and wrapper hand-over (A2.slot), whole-argnums rules map element-wise (A2.argnums), argnums= honoured, 'same'/def_linear substitute at argnum, checkpoint wiring (A15).",
+        ),
+        "C18": (
+            [kck.checker],
+            "Gradient checker, structural clauses only: check_grads reaches the comparison of each requested mode at each requested order and recurses on the derivative closure of the same mode (A18.modes); "
+            "check_vjp asserts the adjoint identity between the reverse-mode rule and the numerical JVP on one pair of random vectors, check_jvp / check_equivalent compare element [1] of the forward-mode rule with the numerical JVP on the same direction and assert equal spaces (A18.compare); "
+            "the numerical JVP is a symmetric difference with matching scale (A18.numjvp); scalar_close uses small positive tolerances (A18.tol).",
         ),
         "C19": (
             [kt.global_effects, kt.trace_id_uses, kt.new_trace, kc.closure_reuse, kc.backward_pass, kc.zero_paths],
